@@ -595,6 +595,11 @@ pub fn replay_sem(prop: &str, case: &Value) -> Found {
         sem_case_o(prop, &text, &Oracle::from_formulas(&l), case["sorting"].as_u64().unwrap_or(0) as usize, &l.labels, &mut out, &mut st);
         return out;
     }
+    if let Some(r) = case.get("ladder") {
+        let l = crate::mid::ladder(r["n"].as_u64().unwrap_or(65) as usize, r["variant"].as_u64().unwrap_or(0));
+        sem_case_o(prop, &text, &Oracle::from_formulas(&l), case["sorting"].as_u64().unwrap_or(0) as usize, &l.labels, &mut out, &mut st);
+        return out;
+    }
     if let Some(r) = case.get("ring") {
         let l = crate::mid::ring(r["n"].as_u64().unwrap_or(6) as usize, r["index"].as_u64().unwrap_or(0));
         sem_case_o(prop, &text, &Oracle::from_formulas(&l), case["sorting"].as_u64().unwrap_or(0) as usize, &l.labels, &mut out, &mut st);
